@@ -24,7 +24,9 @@ pub struct Exec {
     pub vol_modified: Vec<Vec<bool>>,
     pub budget: Vec<u64>,
     pub prev: Vec<BookObs>,
+    /// all assets trading (derived from `trading_a`)
     pub trading: bool,
+    pub trading_a: Vec<bool>,
     pub ever_disabled: bool,
     pub since_reset: Vec<u64>,
     pub stats: RunStats,
@@ -44,6 +46,7 @@ pub enum Prim {
     Cancel { a: usize, id: usize, via_event: bool },
     Modify { a: usize, id: usize, price: Option<u32>, vol: Option<u32>, via_event: bool },
     Trading(bool),
+    TradingAsset { a: usize, on: bool },
     ResetTradeVol,
 }
 
@@ -92,6 +95,7 @@ impl Exec {
             budget: vec![0; a],
             prev,
             trading: cfg.trading0,
+            trading_a: vec![cfg.trading0; a],
             ever_disabled: !cfg.trading0,
             since_reset: vec![0; a],
             stats: RunStats::default(),
@@ -193,6 +197,12 @@ impl Exec {
                 }
             }
             Op::Trading { on } => Some(vec![Prim::Trading(*on)]),
+            Op::TradingAsset { a, on } => {
+                if *a >= self.cfg.assets {
+                    return None;
+                }
+                Some(vec![Prim::TradingAsset { a: *a, on: *on }])
+            }
             Op::ResetTradeVol => Some(vec![Prim::ResetTradeVol]),
             Op::Snapshot { .. } | Op::Drain => Some(vec![]),
         }
@@ -262,8 +272,12 @@ impl Exec {
                 }
             }
             if let Prim::Trading(on) = p {
-                self.trading = *on;
+                self.trading_a.iter_mut().for_each(|x| *x = *on);
             }
+            if let Prim::TradingAsset { a, on } = p {
+                self.trading_a[*a] = *on;
+            }
+            self.trading = self.trading_a.iter().all(|x| *x);
             if let (Prim::Create { a, vol, price, .. }, Some(Ok(id))) = (p, created) {
                 self.ids[*a].push(id);
                 self.is_mkt[*a].push(price.is_none());
@@ -281,7 +295,11 @@ impl Exec {
         }
         let cfg = self.cfg.clone();
         let pre = std::mem::take(&mut self.prev);
-        let pre_trading = self.trading;
+        // the flag that governs the book this operation addresses
+        let pre_trading = match p {
+            Prim::Create { a, .. } | Prim::Place { a, .. } | Prim::Cancel { a, .. } | Prim::Modify { a, .. } | Prim::TradingAsset { a, .. } => self.trading_a[*a],
+            _ => self.trading,
+        };
         // ---- real objects ----
         let mut create_res: Option<Result<(usize, usize), String>> = None;
         let r = {
@@ -307,7 +325,7 @@ impl Exec {
                             apply_real(s.as_mut(), p, Some(0));
                         }
                     }
-                    Prim::Create { a, .. } | Prim::Place { a, .. } | Prim::Cancel { a, .. } | Prim::Modify { a, .. } => {
+                    Prim::Create { a, .. } | Prim::Place { a, .. } | Prim::Cancel { a, .. } | Prim::Modify { a, .. } | Prim::TradingAsset { a, .. } => {
                         if let Some(s) = shadows.get_mut(*a) {
                             apply_real(s.as_mut(), p, Some(0));
                         }
@@ -330,10 +348,22 @@ impl Exec {
         // harness-side bookkeeping that does not depend on any oracle
         match p {
             Prim::Trading(on) => {
+                self.trading_a.iter_mut().for_each(|x| *x = *on);
                 self.trading = *on;
                 if !*on {
                     self.ever_disabled = true;
                 }
+            }
+            Prim::TradingAsset { a, on } => {
+                if self.trading_a[*a] == *on {
+                    self.stats.probe("redundant_trading_switch");
+                }
+                self.trading_a[*a] = *on;
+                self.trading = self.trading_a.iter().all(|x| *x);
+                if !*on {
+                    self.ever_disabled = true;
+                }
+                self.stats.probe("book_level_trading_switch");
             }
             Prim::Tick(_) => {}
             _ => {}
@@ -747,7 +777,68 @@ impl Exec {
                 }
             }
             // crash-restart: only the durable state survives
+            let old_levels = self.real.levels();
             self.real = restored;
+            // the stand-alone shadow books (C14) crash-restart too, into the same number of published levels
+            if has(&cfg, mon::SHADOW) {
+                for k in 0..self.shadows.len() {
+                    let sh = &self.shadows[k];
+                    let r = guard(|| {
+                        let js = sh.to_json(false);
+                        mkt_from_json(false, 1, into_levels, &js)
+                    });
+                    match r {
+                        Ok(Ok(b)) => self.shadows[k] = b,
+                        Ok(Err(e)) => return Err(self.viol("snapshot-diverged", "shadow load", "Ok".into(), format!("Err({})", e))),
+                        Err(msg) => return Err(self.classify_panic(msg, "shadow snapshot save/load")),
+                    }
+                }
+            }
+            // the restart itself is a no-op on everything observable: the model-free monitors of this profile see it as
+            // an operation that changes nothing (a clock set to the time it already shows)
+            {
+                let n = into_levels.min(old_levels);
+                let pre_t: Vec<BookObs> = self.prev.iter().map(|o| trim_levels(o, n)).collect();
+                let post_t: Vec<BookObs> = ro.iter().map(|o| trim_levels(o, n)).collect();
+                let t_now = pre_t.first().map(|o| o.t).unwrap_or(0);
+                let prim = Prim::Tick(t_now);
+                let ctx = m::Ctx {
+                    prop: &self.prop,
+                    op_index: self.op_index,
+                    cfg: &cfg,
+                    prim: &prim,
+                    pre: &pre_t,
+                    post: &post_t,
+                    pre_trading: self.trading,
+                    trading: self.trading,
+                    ever_disabled: self.ever_disabled,
+                    create_res: &None,
+                    is_mkt: &self.is_mkt,
+                    vol_modified: &self.vol_modified,
+                };
+                let mut r: Result<(), Violation> = Ok(());
+                if r.is_ok() && has(&cfg, mon::GRID) {
+                    r = m::grid(&ctx);
+                }
+                if r.is_ok() && has(&cfg, mon::RECOMPUTE) {
+                    r = m::recompute(&ctx);
+                }
+                if r.is_ok() && has(&cfg, mon::LEDGER) {
+                    r = m::ledger(&ctx, &mut self.since_reset);
+                }
+                if r.is_ok() && has(&cfg, mon::LIFECYCLE) {
+                    r = m::lifecycle(&ctx);
+                }
+                if r.is_ok() && has(&cfg, mon::NOOP) {
+                    r = m::noop(&ctx);
+                }
+                if r.is_ok() && has(&cfg, mon::HALT) {
+                    r = m::halt(&ctx);
+                }
+                if let Err(v) = r {
+                    return Err(v.detail("raised by the crash-restart through JSON itself (the restored object, observed before any further operation)".into()));
+                }
+            }
             self.prev = ro;
             self.stats.probe("crash_restart");
             if into_levels != cfg.levels {
@@ -866,12 +957,6 @@ impl Exec {
                             }
                             self.stats.ops += 1;
                             self.count_faults(&p);
-                            // an off-grid re-price ends the run (its outcome must not taint later checks)
-                            if let Prim::Modify { a, price: Some(np), .. } = &p {
-                                if np % self.cfg.ticks[*a] != 0 {
-                                    self.stop = true;
-                                }
-                            }
                         }
                         r
                     }
@@ -890,8 +975,8 @@ impl Exec {
                 let dt = nt - self.prev.first().map(|_| 0).unwrap_or(0);
                 let _ = dt;
             }
-            Prim::Trading(false) => self.stats.fault("trading_halt"),
-            Prim::Trading(true) => self.stats.fault("trading_resume"),
+            Prim::Trading(false) | Prim::TradingAsset { on: false, .. } => self.stats.fault("trading_halt"),
+            Prim::Trading(true) | Prim::TradingAsset { on: true, .. } => self.stats.fault("trading_resume"),
             Prim::Create { a, price: Some(p), .. } if p % self.cfg.ticks[*a] != 0 => self.stats.fault("offgrid_create_request"),
             Prim::Modify { a, price: Some(p), .. } if p % self.cfg.ticks[*a] != 0 => self.stats.fault("offgrid_reprice_request"),
             _ => {}
@@ -943,6 +1028,10 @@ fn apply_real(obj: &mut dyn Mkt, p: &Prim, force_asset: Option<usize>) -> Option
             }
             None
         }
+        Prim::TradingAsset { a, on } => {
+            obj.set_trading_asset(fa(*a), *on);
+            None
+        }
         Prim::ResetTradeVol => {
             obj.reset_trade_vols();
             None
@@ -965,6 +1054,16 @@ pub fn apply_model(mm: &mut Model, a_idx: usize, p: &Prim) -> Option<Result<usiz
                 mm.enable_trading()
             } else {
                 mm.disable_trading()
+            }
+            None
+        }
+        Prim::TradingAsset { a, on } => {
+            if *a == a_idx {
+                if *on {
+                    mm.enable_trading()
+                } else {
+                    mm.disable_trading()
+                }
             }
             None
         }
